@@ -642,6 +642,10 @@ fn reassociate_applications<'a>(acc: Option<Term<'a>>, term: &Term<'a>) -> Term<
             ),
             errors: vec![],
         },
+        Variant::Application(_, _) if term.group && acc.is_some() => {
+            // This application was explicitly grouped, so it must not absorb the accumulator.
+            reassociate_applications(None, term)
+        }
         Variant::Application(applicand, argument) => {
             return if argument.group {
                 if let Some(acc) = acc {
@@ -914,6 +918,10 @@ fn reassociate_products_and_quotients<'a>(
             ),
             errors: vec![],
         },
+        Variant::Product(_, _) | Variant::Quotient(_, _) if term.group && acc.is_some() => {
+            // This term was explicitly grouped, so it must not absorb the accumulator.
+            reassociate_products_and_quotients(None, term)
+        }
         Variant::Product(term1, term2) => {
             return if term2.group {
                 if let Some(acc) = acc {
@@ -1176,6 +1184,10 @@ fn reassociate_sums_and_differences<'a>(
             variant: Variant::Negation(Rc::new(reassociate_sums_and_differences(None, subterm))),
             errors: vec![],
         },
+        Variant::Sum(_, _) | Variant::Difference(_, _) if term.group && acc.is_some() => {
+            // This term was explicitly grouped, so it must not absorb the accumulator.
+            reassociate_sums_and_differences(None, term)
+        }
         Variant::Sum(term1, term2) => {
             return if term2.group {
                 if let Some(acc) = acc {
